@@ -298,6 +298,11 @@ STMT_RULES = {
     "object-into-int-array-element": ("arr[0] = new Priv();", "arr[0] = 4;"),
     "array-into-int-array-element": ("int[] other = {1}; arr[1] = other;", "int[] other = {1}; arr[1] = other[0];"),
     "string-into-int-array-element": ("arr[2] = \"s\";", "arr[2] = 2;"),
+    # a declaration inside a '? :' branch ends with the branch (hunt C09/d6)
+    "ternary-then-declaration-used-after": ("(ok == 1) ? int tv = 1; : echo(0); ok = tv;", "int tv = 0; (ok == 1) ? tv = 1; : echo(0); ok = tv;"),
+    "ternary-else-declaration-used-after": ("(ok == 1) ? echo(0); : int tv = 1; ok = tv;", "int tv = 0; (ok == 1) ? echo(0); : tv = 1; ok = tv;"),
+    "ternary-branch-redeclares-outer": ("int dup = 1; (ok == 1) ? int dup = 2; : echo(0);", "int dup = 1; (ok == 1) ? int dup2 = 2; : echo(0);"),
+    "ternary-both-branches-declare-same-name": ("(ok == 1) ? int tb = 1; : int tb = 2; ok = tb;", "(ok == 1) ? int tb = 1; : int tb = 2; ok = 1;"),
 }
 STMT_WRAPS = {
     "plain": "{S}",
@@ -306,6 +311,8 @@ STMT_WRAPS = {
     "else-body": "if (ok == 2) {{ }} else {{ {S} }}",
     "while-body": "while (ok == 7) {{ {S} }}",
     "for-body": "for (int k = 0; k < 1; k = k + 1) {{ {S} }}",
+    "ternary-then": "(ok == 1) ? {{ {S} }} : {{ }}",
+    "ternary-else": "(ok == 1) ? {{ }} : {{ {S} }}",
 }
 
 
